@@ -170,9 +170,61 @@ def _fixed_contract(ctx) -> None:
     _ = ga
 
 
+def _from_timestamp_tabulate(ctx, m, fn) -> bool | None:
+    """OFFSET.from_timestamp decided on values: from_timestamp (and pendulum.datetime, if it goes through it) run by the checker's
+    interpreter; DateTime.create records what it is given, in_timezone / in_tz record the conversion.  For integer, fractional,
+    zero and negative timestamps and tz = UTC, the string 'UTC', a zone name, a zone object: the value created must carry
+    the UTC broken-down fields of the timestamp (standard library) tagged UTC, and be converted to tz unless tz is UTC."""
+    import datetime as _dt
+    from ..rules import minieval
+    UTCm = minieval.Stub(name="UTC", _eqkey="UTC")
+    bad, n = [], 0
+    try:
+        funcs = {st.name: st for st in m.top() if isinstance(st, ast.FunctionDef)}
+        for ts in (0, 1, -1, 1600000000, 1600000000.123456, -86400.5, 951782400, 4102444799):
+            for tz in (UTCm, "UTC", "Europe/Paris", minieval.Stub(name="America/New_York", _eqkey="NY")):
+                def create(year, month, day, hour=0, minute=0, second=0, microsecond=0, tz=UTCm, fold=1, raise_on_unknown_times=False):
+                    me = minieval.Stub(_fields=(year, month, day, hour, minute, second, microsecond), _tz=tz, _conv=None)
+                    vars(me)["in_timezone"] = vars(me)["in_tz"] = lambda z: minieval.Stub(_fields=me._fields, _tz=me._tz, _conv=z)
+                    return me
+                def utcfrom(t):
+                    return _dt.datetime(1970, 1, 1) + _dt.timedelta(seconds=t) if t < 0 else _dt.datetime.fromtimestamp(t, tz=_dt.timezone.utc).replace(tzinfo=None)
+
+                def localfrom(t, tz=None):
+                    # the process's local zone is not UTC in general: a reading in local time shows as a +05:45 shift here
+                    return _dt.datetime.fromtimestamp(t, tz=tz) if tz is not None else utcfrom(t) + _dt.timedelta(hours=5, minutes=45)
+                glob = {"_datetime": minieval.Stub(datetime=minieval.Stub(utcfromtimestamp=utcfrom, fromtimestamp=localfrom), timezone=_dt.timezone, timedelta=_dt.timedelta), "UTC": UTCm,
+                        "DateTime": minieval.ClassStub(_new=None, _isa=lambda v: False, create=create), "_safe_timezone": lambda z, **k: z}
+                n += 1
+                got = minieval.call(fn, [ts, tz], {}, {**funcs, "$globals": glob})
+                w = _dt.datetime(1970, 1, 1) + _dt.timedelta(seconds=ts)
+                w = _dt.datetime.fromtimestamp(ts, tz=_dt.timezone.utc).replace(tzinfo=None) if ts >= 0 else w
+                want = (w.year, w.month, w.day, w.hour, w.minute, w.second, w.microsecond)
+                label = f"from_timestamp({ts!r}, tz={getattr(tz, 'name', tz)!r})"
+                if not hasattr(got, "_fields"):
+                    raise core.Unsupported("the result is not built through DateTime.create")
+                if tuple(got._fields) != want:
+                    bad.append(f"{label}: created from the fields {tuple(got._fields)} (UTC fields of the timestamp: {want})")
+                elif got._tz is not UTCm and got._tz != "UTC":
+                    bad.append(f"{label}: the UTC fields are tagged with tz={getattr(got._tz, 'name', got._tz)!r}")
+                elif got._conv is None and tz is not UTCm and tz != "UTC":
+                    bad.append(f"{label}: the value is not converted to the requested timezone")
+                elif got._conv is not None and got._conv is not tz and got._conv != tz:
+                    bad.append(f"{label}: converted to {getattr(got._conv, 'name', got._conv)!r}")
+    except (core.Unsupported, KeyError, TypeError, AttributeError, IndexError, ValueError, OverflowError) as e:
+        ctx.unverified("OFFSET.from_timestamp", "from_timestamp/tabulated", f"outside the checker's interpreter: {type(e).__name__}: {e}", m.loc(fn))
+        return None
+    ctx.ob("OFFSET.from_timestamp", "from_timestamp/tabulated", not bad, f"{n} (timestamp, tz) cases: " + (f"wrong: {bad[:3]}" if bad else
+           "UTC fields of the timestamp tagged UTC, converted to the requested zone"), m.loc(fn))
+    if not bad:
+        ctx.established(("OFFSET.from_timestamp",), "from_timestamp/path", "OFFSET.from_timestamp (tabulated)")
+    return not bad
+
+
 def _from_timestamp(ctx) -> None:
     m = pmod("__init__")
     fn = m.func("from_timestamp")
+    _from_timestamp_tabulate(ctx, m, fn)
     ts, tz = core.params(fn)[:2]
     ps = ctx.guard("OFFSET.from_timestamp", "from_timestamp", lambda: cfg.paths(fn), m.loc(fn))
     if ps is None:
